@@ -462,6 +462,26 @@ func (in *instrumenter) hoist(s ast.Stmt) []ast.Stmt {
 			target = &as.Rhs[0]
 		}
 	}
+	if rs, ok := s.(*ast.ReturnStmt); ok && target == nil {
+		// the first result that is a call (results are evaluated left to right; plain operands
+		// before it cannot contain calls, or they would be that first call)
+		for i := range rs.Results {
+			if _, isCall := rs.Results[i].(*ast.CallExpr); isCall {
+				target = &rs.Results[i]
+				break
+			}
+			hasCall := false
+			ast.Inspect(rs.Results[i], func(n ast.Node) bool {
+				if _, ok := n.(*ast.CallExpr); ok {
+					hasCall = true
+				}
+				return !hasCall
+			})
+			if hasCall {
+				break
+			}
+		}
+	}
 	if target == nil {
 		return nil
 	}
